@@ -1,0 +1,22 @@
+//go:build verif
+
+// Machine-checked contracts for this package (guard: build tag `verif`; this file contains comments only).
+// Read by /verif/bin/govc: each `//@ unit` section is one verification unit (the functions matching `filter`,
+// verified against the contracts of the section; callees are used through their contracts only).
+
+package staticfiles
+
+//@ unit serve_file props=C02,C18 filter=`staticfiles\.FileServer\)\.serveFile$`
+//@ spec statOf(f http.File) os.FileInfo
+
+//@ extern invoke:(net/http.File).Stat
+//@   ensures result1 == nil ==> result0 == statOf(self)
+//@ func (FileServer).IsHidden
+//@   pure
+
+//@ func (FileServer).serveFile
+//@   requires r != nil && r.URL != nil
+//@   at call net/http.ServeContent assert [sink_not_hidden] !fs.IsHidden(statOf(f))
+//@   loop 3 invariant d == statOf(f)
+//@   loop 4 invariant d == statOf(f) && !fs.IsHidden(d)
+//@   loop 5 invariant d == statOf(f) && !fs.IsHidden(d)
